@@ -10,6 +10,12 @@
 //	         integers counting quarter units (value/4 is the float32 handed to the code);
 //	         magnitudes are kept where float32 is exact for the zone index and for the
 //	         `dist > r` test, so the Lean model must reproduce the observation verbatim.
+//	         unit id= kind=<none|exit|test|camera|monster|avatar|gone> dead=<0|1> (funit in the float stream) — the scene
+//	         world's view of an id; q/qn/fq/fqn with fp=<id> run the real searchers.FindPlayers owned by that id.
+//	         qn n= x= y= z= r= [own=] — a long-lived space: the same query n times in a row on each of the three
+//	         spaces (n up to 200000, around the widths of 8- and 16-bit counters); observation = that of the first
+//	         run + ` n=<n> same=<runs whose three results equal the first>` and, for the first run that differs,
+//	         ` at=<its number> dz= db= ds=` (its results).  fqn = the same in the float stream (` at= dz= ds=`).
 //	float  — reset kind=f (default | bx= … as float32 bit patterns) | fadd/fmov/fdel/fq with
 //	         float32 bit patterns (8 hex digits): arbitrary values incl. huge, tiny, non-finite.
 //	         Observation of fq: z=<zoned> b=<own brute-force scan over a shadow copy, same
@@ -31,7 +37,67 @@ import (
 	"mmo/servers/scene/define"
 	"mmo/servers/scene/space"
 	"mmo/servers/scene/space/factory"
+	"mmo/servers/scene/space/searchers"
+
+	fcommon "mmo/modules/fight/common"
+	edefine "mmo/servers/scene/entity/define"
 )
+
+// The scene world as searchers.FindPlayers sees it: GetWorld().GetEntity(id) and the entity's BaseUnit
+// component (IsDead, GetUnitType).  Only those methods exist; the embedded nil interfaces make any other
+// call of the code under test a panic (= an observation).  An id the ops never described is a live avatar.
+type unitInfo struct {
+	kind define.UnitType
+	dead bool
+	gone bool // the world does not know the id (destroyed entity whose position is still in the index)
+}
+
+type stubUnit struct {
+	entity.IComponent
+	u unitInfo
+}
+
+func (s *stubUnit) GetUnitType() define.UnitType { return s.u.kind }
+func (s *stubUnit) GetChar() fcommon.ICharacter  { return nil }
+func (s *stubUnit) IsDead() bool                 { return s.u.dead }
+
+type stubEntity struct {
+	entity.IEntity
+	id    entity.EntityID
+	world *stubWorld
+}
+
+func (e *stubEntity) GetId() entity.EntityID    { return e.id }
+func (e *stubEntity) GetWorld() entity.IWorld   { return e.world }
+func (e *stubEntity) GetComponent(name string) entity.IComponent {
+	if name != edefine.BaseUnit {
+		return nil
+	}
+	return &stubUnit{u: e.world.info(e.id)}
+}
+
+type stubWorld struct {
+	entity.IWorld
+	units map[entity.EntityID]unitInfo
+}
+
+func (sw *stubWorld) info(id entity.EntityID) unitInfo {
+	if u, ok := sw.units[id]; ok {
+		return u
+	}
+	return unitInfo{kind: define.UnitAvatar}
+}
+
+func (sw *stubWorld) GetEntity(id entity.EntityID) entity.IEntity {
+	if sw.info(id).gone {
+		return nil
+	}
+	return &stubEntity{id: id, world: sw}
+}
+
+var unitKinds = map[string]define.UnitType{"none": define.UnitNone, "exit": define.UnitExit, "test": define.UnitTest,
+	"camera": define.UnitCamera, "monster": define.UnitMonster, "avatar": define.UnitAvatar}
+
 
 // collect is an ISearcher that accepts every candidate except the owner (if it has one),
 // the way searchers.FindPlayers rejects its ownerId.
@@ -61,6 +127,30 @@ func showIDs(ids []entity.EntityID) string {
 	return sb.String()
 }
 
+// fpAccepts: what FindPlayers is for (the float stream's scan uses it; the exact stream's reference is the Lean spec):
+// another unit than the owner, known to the world, alive, a player avatar.
+func fpAccepts(u unitInfo, id, owner entity.EntityID) bool {
+	return id != owner && !u.gone && !u.dead && u.kind == define.UnitAvatar
+}
+
+// maxRepeat bounds the n of qn / fqn (two wraps of a 16-bit counter and a bit more).
+const maxRepeat = 200000
+
+// sameIDs: the same ids with the same multiplicities (the order the searcher received them in is not observed).
+func sameIDs(a, b []entity.EntityID) bool {
+	if len(a) != len(b) {
+		return false
+	}
+	eq := true
+	for i := range a {
+		if a[i] != b[i] {
+			eq = false
+			break
+		}
+	}
+	return eq || showIDs(a) == showIDs(b)
+}
+
 // world is the state of the interpreter: the spaces under test plus a shadow
 // copy of what was put into them.
 type world struct {
@@ -68,6 +158,7 @@ type world struct {
 	simple define.ISpace // handed only the adds of ids that are not live: the reference of the zoned contract
 	all    define.ISpace // a second SimpleSpace handed every op verbatim (its own contract: add of a live id moves it)
 	kind   string
+	units  *stubWorld                     // what searchers.FindPlayers looks candidates up in
 	pos    map[entity.EntityID]define.Pos // shadow copy (ZoneSpace contract: add of a live id is a no-op)
 	order  []entity.EntityID
 }
@@ -166,7 +257,7 @@ func exec(op string) string {
 		kind, _ := hx.KV(ws, "kind")
 		w = nil
 		return hx.Guard(func() string {
-			nw := &world{kind: kind, pos: map[entity.EntityID]define.Pos{}}
+			nw := &world{kind: kind, pos: map[entity.EntityID]define.Pos{}, units: &stubWorld{units: map[entity.EntityID]unitInfo{}}}
 			switch kind {
 			case "x":
 				if len(ws) > 2 && ws[2] == "default" { // the only Init call site of the repository
@@ -231,8 +322,31 @@ func exec(op string) string {
 		}
 		ownID = entity.EntityID(n)
 	}
-	searcher := func() *collect { return &collect{own: ownID, hasOwn: hasOwn} }
+	fp, hasFP := hx.KV(ws, "fp") // the real searchers.FindPlayers owned by that id (a fresh object per query, as space/utils does)
+	fpID := entity.EntityID(0)
+	if hasFP {
+		n, err := strconv.ParseUint(fp, 10, 31)
+		if err != nil || hasOwn {
+			return "bad-op"
+		}
+		fpID = entity.EntityID(n)
+	}
+	searcher := func() define.ISearcher {
+		if hasFP {
+			return searchers.NewFindPlayers(&stubEntity{id: fpID, world: w.units})
+		}
+		return &collect{own: ownID, hasOwn: hasOwn}
+	}
 	switch ws[0] {
+	case "unit", "funit": // unit id= kind=<none|exit|test|camera|monster|avatar|gone> dead=<0|1>: the world's view of an id
+		k, _ := hx.KV(ws, "kind")
+		d, _ := hx.KV(ws, "dead")
+		ut, known := unitKinds[k]
+		if !hasID || !(known || k == "gone") || !(d == "0" || d == "1") {
+			return "bad-op"
+		}
+		w.units.units[id] = unitInfo{kind: ut, dead: d == "1", gone: k == "gone"}
+		return "ok"
 	case "add", "fadd":
 		p, ok := getPos(ws)
 		if !ok || !hasID {
@@ -262,15 +376,57 @@ func exec(op string) string {
 			sv := w.all.SearchCircleTargets(p, q4(r), searcher())
 			return "z=" + showIDs(z) + " b=" + showIDs(b) + " s=" + showIDs(sv)
 		})
-	case "fq":
+	case "qn":
+		p, ok := getPos(ws)
+		r, ok2 := kvI(ws, "r")
+		n, ok3 := kvI(ws, "n")
+		if !ok || !ok2 || !ok3 || n < 1 || n > maxRepeat {
+			return "bad-op"
+		}
+		return hx.Guard(func() string {
+			z1 := w.zone.SearchCircleTargets(p, q4(r), searcher())
+			b1 := w.simple.SearchCircleTargets(p, q4(r), searcher())
+			s1 := w.all.SearchCircleTargets(p, q4(r), searcher())
+			same, dev := int64(1), ""
+			for i := int64(2); i <= n; i++ {
+				z := w.zone.SearchCircleTargets(p, q4(r), searcher())
+				b := w.simple.SearchCircleTargets(p, q4(r), searcher())
+				sv := w.all.SearchCircleTargets(p, q4(r), searcher())
+				if sameIDs(z, z1) && sameIDs(b, b1) && sameIDs(sv, s1) {
+					same++
+				} else if dev == "" {
+					dev = fmt.Sprintf(" at=%d dz=%s db=%s ds=%s", i, showIDs(z), showIDs(b), showIDs(sv))
+				}
+			}
+			return fmt.Sprintf("z=%s b=%s s=%s n=%d same=%d%s", showIDs(z1), showIDs(b1), showIDs(s1), n, same, dev)
+		})
+	case "fq", "fqn":
 		p, ok := getPos(ws)
 		r, ok2 := kvF(ws, "r")
 		if !ok || !ok2 {
 			return "bad-op"
 		}
+		n, hasN := kvI(ws, "n")
+		if (ws[0] == "fqn") != hasN || (hasN && (n < 1 || n > maxRepeat)) {
+			return "bad-op"
+		}
 		return hx.Guard(func() string {
 			z := w.zone.SearchCircleTargets(p, r, searcher())
 			sv := w.simple.SearchCircleTargets(p, r, searcher())
+			rep := ""
+			if hasN { // a long-lived space: the same query again and again
+				same, dev := int64(1), ""
+				for i := int64(2); i <= n; i++ {
+					zi := w.zone.SearchCircleTargets(p, r, searcher())
+					si := w.simple.SearchCircleTargets(p, r, searcher())
+					if sameIDs(zi, z) && sameIDs(si, sv) {
+						same++
+					} else if dev == "" {
+						dev = fmt.Sprintf(" at=%d dz=%s ds=%s", i, showIDs(zi), showIDs(si))
+					}
+				}
+				rep = fmt.Sprintf(" n=%d same=%d%s", n, same, dev)
+			}
 			// the oracle: a scan over the shadow copy with the same Distance and the same test
 			var b, e []entity.EntityID
 			lastHidden = 0
@@ -281,7 +437,7 @@ func exec(op string) string {
 					math.Sqrt(dx*dx+dy*dy+dz*dz) < float64(r)*(1-1e-5) {
 					lastHidden++
 				}
-				if !(d > r) && !(hasOwn && id == ownID) {
+				if !(d > r) && !(hasOwn && id == ownID) && !(hasFP && !fpAccepts(w.units.info(id), id, fpID)) {
 					b = append(b, id)
 				}
 				if !finite(ep.X) || !finite(ep.Y) || !finite(ep.Z) {
@@ -300,7 +456,7 @@ func exec(op string) string {
 			if !finite(p.X) || !finite(p.Y) || !finite(p.Z) || !finite(r) {
 				nf = 1
 			}
-			return fmt.Sprintf("z=%s b=%s s=%s e=%s nf=%d", showIDs(z), showIDs(b), showIDs(sv), showIDs(e), nf)
+			return fmt.Sprintf("z=%s b=%s s=%s e=%s nf=%d%s", showIDs(z), showIDs(b), showIDs(sv), showIDs(e), nf, rep)
 		})
 	}
 	return "bad-op"
@@ -316,6 +472,45 @@ func (g *gen) run(op string) string {
 	obs := exec(op)
 	g.t.Emit(op, obs)
 	return obs
+}
+
+// long-lived spaces ---------------------------------------------------------
+//
+// One case in ten keeps its space alive across tens of thousands of queries: at some point of the case one
+// qn / fqn op repeats a query n times, n chosen around the width of an 8-bit or a 16-bit counter (256, 65536,
+// 2*65536) — either so that the ORDINARY ops which follow straddle query no. 256 / 65536 / 131072 of that
+// space (entities that were never reported, or were last reported long ago, are then asked for), or so that
+// the repetition itself crosses it.  State that a query leaves behind in the index (visit stamps, serial
+// numbers, caches, pooled searchers) is reachable only this way.  32-bit widths are out of reach.
+func (g *gen) longN(tag string, nq int) (n int, aimed bool) {
+	r := g.t.R
+	b := []int{256, 256, 65536, 65536, 65536, 65536, 65536, 131072}[r.Intn(8)]
+	g.t.Count(fmt.Sprintf("%s:long:boundary-%d", tag, b))
+	if r.Intn(3) == 0 {
+		g.t.Count(tag + ":long:repetition-crosses-boundary")
+		return b + r.Intn(4) - 1, true
+	}
+	g.t.Count(tag + ":long:following-ops-straddle-boundary")
+	n = b - nq - 1 - r.Intn(3)
+	if n < 1 {
+		n = 1
+	}
+	return n, r.Intn(4) == 0
+}
+
+// the scene world behind searchers.FindPlayers -------------------------------
+
+// unitOp describes an id to the world: dead, not a player avatar, or unknown to the world (destroyed, yet still
+// in the index), or a live avatar again.
+func (g *gen) unitOp(pre, tag string, id int) {
+	r := g.t.R
+	kind := []string{"avatar", "avatar", "avatar", "monster", "monster", "gone", "exit", "test", "camera", "none"}[r.Intn(10)]
+	dead := 0
+	if r.Intn(3) == 0 {
+		dead = 1
+	}
+	g.t.Count(fmt.Sprintf("%s:unit:%s,dead=%d", tag, kind, dead))
+	g.run(fmt.Sprintf("%sunit id=%d kind=%s dead=%d", pre, id, kind, dead))
 }
 
 // exact stream --------------------------------------------------------------
@@ -424,7 +619,37 @@ func (g *gen) caseX(nops int) {
 		}
 		return P{g.coordX(ge.bx, ge.ex, ge.st, "x:coord"), y, g.coordX(ge.bz, ge.ez, ge.st, "x:coord")}
 	}
+	longAt, nq := -1, 0
+	if r.Intn(10) == 0 {
+		longAt = r.Intn(nops/2 + 1)
+	}
 	for i := 0; i < nops; i++ {
+		if i == longAt {
+			n, aimed := g.longN("x", nq)
+			q, rad := pos(), []int64{-1, 0, 1, ge.st, 2 * ge.st, 2048}[r.Intn(6)]
+			if aimed && len(live) > 0 {
+				ids := make([]int, 0, len(live))
+				for id := range live {
+					ids = append(ids, id)
+				}
+				sort.Ints(ids)
+				q = live[ids[r.Intn(len(ids))]]
+				rad = []int64{0, 1, ge.st}[r.Intn(3)]
+			}
+			if int64(n) > 1000 && (ge.ex-ge.bx)/ge.st > 40 && rad > 8*ge.st {
+				rad = 8 * ge.st // thousands of zones per query, tens of thousands of queries: keep the run short
+			}
+			obs := g.run(fmt.Sprintf("qn n=%d x=%d y=%d z=%d r=%d", n, q.x, q.y, q.z, rad))
+			nq += n
+			if strings.HasPrefix(obs, "z= ") {
+				g.t.Count("x:long:result-empty")
+			} else {
+				g.t.Count("x:long:result-nonempty")
+			}
+		}
+		if r.Intn(9) == 0 {
+			g.unitOp("", "x", pickID())
+		}
 		switch k := r.Intn(100); {
 		case k < 32:
 			id, p := pickID(), pos()
@@ -508,6 +733,7 @@ func (g *gen) caseX(nops int) {
 					}
 				}
 				g.t.Count("x:q:tight-after-border-step")
+				nq++
 				g.run(fmt.Sprintf("q x=%d y=%d z=%d r=%d", q.x, q.y, q.z, rad))
 			}
 		case k < 66:
@@ -570,11 +796,15 @@ func (g *gen) caseX(nops int) {
 				g.t.Count("x:q:r-random")
 			}
 			own := ""
-			if r.Intn(4) == 0 { // a searcher that rejects its owner (usually a live id)
+			if c := r.Intn(8); c < 2 { // a searcher that rejects its owner (usually a live id)
 				own = fmt.Sprintf(" own=%d", pickID())
 				g.t.Count("x:q:searcher-rejects-owner")
+			} else if c < 4 { // the real searchers.FindPlayers owned by that id
+				own = fmt.Sprintf(" fp=%d", pickID())
+				g.t.Count("x:q:searcher-FindPlayers")
 			}
 			obs := g.run(fmt.Sprintf("q x=%d y=%d z=%d r=%d%s", q.x, q.y, q.z, rad, own))
+			nq++
 			if strings.HasPrefix(obs, "z= ") {
 				g.t.Count("x:q:result-empty")
 			} else {
@@ -694,7 +924,32 @@ func (g *gen) caseF(nops int) {
 		sort.Ints(ids)
 		return ids
 	}
+	longAt, nq := -1, 0
+	if r.Intn(10) == 0 {
+		longAt = r.Intn(nops/2 + 1)
+	}
 	for i := 0; i < nops; i++ {
+		if i == longAt {
+			n, aimed := g.longN("f", nq)
+			q, rad := pos(), []float32{-1, 0, 0.25, ge.st, 2 * ge.st, 1e4}[r.Intn(6)]
+			if ids := liveIDs(); aimed && len(ids) > 0 {
+				q = live[ids[r.Intn(len(ids))]]
+				rad = []float32{0, 0.25, ge.st}[r.Intn(3)]
+			}
+			if n > 1000 && (ge.ex-ge.bx)/ge.st > 40 && rad > 8*ge.st {
+				rad = 8 * ge.st
+			}
+			obs := g.run(fmt.Sprintf("fqn n=%d x=%s y=%s z=%s r=%s", n, fb(q.X), fb(q.Y), fb(q.Z), fb(rad)))
+			nq += n
+			if strings.HasPrefix(obs, "z= ") {
+				g.t.Count("f:long:result-empty")
+			} else {
+				g.t.Count("f:long:result-nonempty")
+			}
+		}
+		if r.Intn(9) == 0 {
+			g.unitOp("f", "f", 1+r.Intn(pool))
+		}
 		switch k := r.Intn(100); {
 		case k < 30:
 			id, p := 1+r.Intn(pool), pos()
@@ -797,11 +1052,15 @@ func (g *gen) caseF(nops int) {
 				g.t.Count("f:q:r-random")
 			}
 			own := ""
-			if r.Intn(4) == 0 {
+			if c := r.Intn(8); c < 2 {
 				own = fmt.Sprintf(" own=%d", 1+r.Intn(pool))
 				g.t.Count("f:q:searcher-rejects-owner")
+			} else if c < 4 {
+				own = fmt.Sprintf(" fp=%d", 1+r.Intn(pool))
+				g.t.Count("f:q:searcher-FindPlayers")
 			}
 			obs := g.run(fmt.Sprintf("fq x=%s y=%s z=%s r=%s%s", fb(q.X), fb(q.Y), fb(q.Z), fb(rad), own))
+			nq++
 			ows := hx.Words(obs)
 			zs, _ := hx.KV(ows, "z")
 			bs, _ := hx.KV(ows, "b")
@@ -931,9 +1190,15 @@ func (g *gen) caseCrowd(float bool) {
 			g.t.Count(tag + ":q:random")
 		}
 		own := ""
-		if r.Intn(4) == 0 && len(order) > 0 {
+		if c := r.Intn(8); c < 2 && len(order) > 0 {
 			own = fmt.Sprintf(" own=%d", order[r.Intn(len(order))])
 			g.t.Count(tag + ":q:searcher-rejects-owner")
+		} else if c < 4 && len(order) > 0 {
+			own = fmt.Sprintf(" fp=%d", order[r.Intn(len(order))])
+			g.t.Count(tag + ":q:searcher-FindPlayers")
+		}
+		if r.Intn(6) == 0 && len(order) > 0 {
+			g.unitOp(pre, tag, order[r.Intn(len(order))])
 		}
 		var obs string
 		if float {
